@@ -154,20 +154,20 @@ def errOuts (env : TyEnv) (fn : Fn) : List Nat :=
   (List.range fn.outs.length).filter fun i => isErrorT env (fn.outs.getD i (.univ 0))
 
 /-- `c.invoker()(fn, args)` with the scripted body of PROTOCOL §2.3 -/
-def callBody (ctx : Ctx) (fn : Fn) (args : List Val) : EM BodyRes := fun st =>
-  if ctx.cfg.dry then (.ok .dry, st)
+def callBody (ctx : Ctx) (who : Who) (fn : Fn) (args : List Val) : St → BodyRes × St := fun st =>
+  if ctx.cfg.dry then (.dry, st)
   else
     let x := st.execCount fn.id
     let b := ctx.beh fn.id x
-    let st := (st.bumpExec fn.id).emit (.enter fn.id x args)
+    let st := (st.bumpExec fn.id).emit (.enter who fn.id x args)
     let st := { st with clock := st.clock + b.dt }
     let eo := errOuts ctx.env fn
     match b.k with
-    | .panic => (.ok (.panic x), st.emit (.exit fn.id x .panic))
+    | .panic => (.panic x, st.emit (.exit who fn.id x .panic))
     | .err =>
-      if eo.isEmpty then (.ok (.ok x b.len), st.emit (.exit fn.id x .ok))
-      else (.ok (.err x (eo.getD (b.eslot % eo.length) 0)), st.emit (.exit fn.id x .err))
-    | .ok => (.ok (.ok x b.len), st.emit (.exit fn.id x .ok))
+      if eo.isEmpty then (.ok x b.len, st.emit (.exit who fn.id x .ok))
+      else (.err x (eo.getD (b.eslot % eo.length) 0), st.emit (.exit who fn.id x .err))
+    | .ok => (.ok x b.len, st.emit (.exit who fn.id x .ok))
 
 /-! ### shallowCheckDependencies -/
 
@@ -259,10 +259,71 @@ def mapM' {α β : Type} (xs : List α) (f : α → EM β) : EM (List β) :=
   | [] => EM.pure []
   | x :: rest => EM.bind (f x) fun b => EM.bind (mapM' rest f) fun bs => EM.pure (b :: bs)
 
-def runCallback (cb : Option Nat) (fn : Nat) (start : Nat) (err : Option DErr) : St → St := fun st =>
+def runCallback (cb : Option Nat) (who : Who) (fn : Nat) (start : Nat) (err : Option DErr) : St → St := fun st =>
   match cb with
-  | some op => st.emit (.cb op fn err (st.clock - start))
+  | some op => st.emit (.cb op who fn err (st.clock - start))
   | none => st
+
+/-- `constructorNode.Call` after the arguments have been built: the callback's start time,
+    the call, `ExtractList` into a staging writer, `Commit(n.s)`, `called = true`; the deferred
+    callback and `recover` -/
+def ctorTail (ctx : Ctx) (n : Nat) (node : CtorNode) (args : List Val) : EM Unit := fun st =>
+  let start := st.clock
+  let who := Who.ctor n
+  match callBody ctx who node.fn args st with
+  | (.panic x, st) =>
+    if ctx.cfg.recover then
+      (.error (.err (.panicErr node.fn.id x)), runCallback node.cb who node.fn.id start (some (.panicErr node.fn.id x)) st)
+    else
+      (.error (.panic node.fn.id x), runCallback node.cb who node.fn.id start none st)
+  | (.err x _, st) =>
+    let e := DErr.ctorFailed (.user node.fn.id x)
+    (.error (.err e), runCallback node.cb who node.fn.id start (some e) st)
+  | (.ok x len, st) =>
+    let ret : Ret := { dry := false, f := node.fn.id, x := x, len := len }
+    let st := st.modScope node.s fun sc => extractSlots ctx.env false ret sc node.results
+    let st := st.modCtor n fun y => { y with called := true }
+    (.ok (), runCallback node.cb who node.fn.id start none st)
+  | (.dry, st) =>
+    let ret : Ret := { dry := true, f := 0, x := 0, len := 0 }
+    let st := st.modScope node.s fun sc => extractSlots ctx.env false ret sc node.results
+    let st := st.modCtor n fun y => { y with called := true }
+    (.ok (), runCallback node.cb who node.fn.id start none st)
+
+/-- `decoratorNode.Call` after the arguments have been built -/
+def decoTail (ctx : Ctx) (d : Nat) (node : DecoNode) (args : List Val) : EM Unit := fun st =>
+  let start := st.clock
+  let who := Who.deco d
+  match callBody ctx who node.fn args st with
+  | (.panic x, st) =>
+    if ctx.cfg.recover then
+      (.error (.err (.panicErr node.fn.id x)), runCallback node.cb who node.fn.id start (some (.panicErr node.fn.id x)) st)
+    else
+      (.error (.panic node.fn.id x), runCallback node.cb who node.fn.id start none st)
+  | (.err x _, st) =>
+    -- `ExtractList` returns the error as it is (no errConstructorFailed wrapper)
+    let e := DErr.user node.fn.id x
+    (.error (.err e), runCallback node.cb who node.fn.id start (some e) st)
+  | (.ok x len, st) =>
+    let ret : Ret := { dry := false, f := node.fn.id, x := x, len := len }
+    let st := st.modScope node.s fun sc => extractSlots ctx.env true ret sc node.results
+    let st := st.modDeco d fun y => { y with state := .called }
+    (.ok (), runCallback node.cb who node.fn.id start none st)
+  | (.dry, st) =>
+    let ret : Ret := { dry := true, f := 0, x := 0, len := 0 }
+    let st := st.modScope node.s fun sc => extractSlots ctx.env true ret sc node.results
+    let st := st.modDeco d fun y => { y with state := .called }
+    (.ok (), runCallback node.cb who node.fn.id start none st)
+
+/-- the provider loop of `paramSingle.Build`: an optional parameter absorbs
+    `errMissingDependencies` found anywhere in the chain -/
+def providerStep (env : TyEnv) (k : Key) (opt : Bool) (n : Nat) (r : Except Fail Unit × St) : Except Fail (Option Val) × St :=
+  match r with
+  | (.ok (), st2) => (.ok none, st2)
+  | (.error (.err e), st2) =>
+    if e.hasMissingDeps && opt then (.ok (some (zeroVal env k.ty)), st2)
+    else (.error (.err (.paramSingle k n e)), st2)
+  | (.error f, st2) => (.error f, st2)
 
 mutual
 
@@ -276,36 +337,12 @@ def callCtor (ctx : Ctx) : Nat → Nat → Nat → EM Unit
       -- the constructor is needed to build its own arguments (repair of F8/F9)
       (.error (.err (.cycle [n] node.s)), st)
     else
-      let st := st.modCtor n fun x => { x with onStack := true }
-      EM.finally_ (do
-        shallowCheck c node.params
-        let args ← EM.wrapErr (buildList ctx fuel node.params c) .argsFailed
-        let start := (← EM.get).clock
-        let r ← callBody ctx node.fn args
-        match r with
-        | .panic x =>
-          if ctx.cfg.recover then
-            EM.bind (EM.modify (runCallback node.cb node.fn.id start (some (.panicErr node.fn.id x)))) fun _ =>
-              EM.fail (.err (.panicErr node.fn.id x))
-          else
-            EM.bind (EM.modify (runCallback node.cb node.fn.id start none)) fun _ =>
-              EM.fail (.panic node.fn.id x)
-        | .err x _ =>
-          let e := DErr.ctorFailed (.user node.fn.id x)
-          EM.bind (EM.modify (runCallback node.cb node.fn.id start (some e))) fun _ => EM.fail (.err e)
-        | .ok x len =>
-          EM.modify fun st =>
-            let ret : Ret := { dry := false, f := node.fn.id, x := x, len := len }
-            let st := st.modScope node.s fun sc => extractSlots ctx.env false ret sc node.results
-            let st := st.modCtor n fun y => { y with called := true }
-            runCallback node.cb node.fn.id start none st
-        | .dry =>
-          EM.modify fun st =>
-            let ret : Ret := { dry := true, f := 0, x := 0, len := 0 }
-            let st := st.modScope node.s fun sc => extractSlots ctx.env false ret sc node.results
-            let st := st.modCtor n fun y => { y with called := true }
-            runCallback node.cb node.fn.id start none st)
-        (fun st => st.modCtor n fun x => { x with onStack := false }) st
+      EM.finally_
+        (EM.bind (shallowCheck c node.params) fun _ =>
+         EM.bind (EM.wrapErr (buildList ctx fuel node.params c) .argsFailed) fun args =>
+         ctorTail ctx n node args)
+        (fun st => st.modCtor n fun x => { x with onStack := false })
+        (st.modCtor n fun x => { x with onStack := true })
 
 /-- `decoratorNode.Call(s)` -/
 def callDeco (ctx : Ctx) : Nat → Nat → Nat → EM Unit
@@ -314,37 +351,13 @@ def callDeco (ctx : Ctx) : Nat → Nat → Nat → EM Unit
     let node := st.deco d
     if node.state == .called then (.ok (), st)
     else
-      let st := st.modDeco d fun x => { x with state := .onStack }
-      EM.finally_ (do
-        shallowCheck s node.params
-        let args ← EM.wrapErr (buildList ctx fuel node.params node.s) .argsFailed
-        let start := (← EM.get).clock
-        let r ← callBody ctx node.fn args
-        match r with
-        | .panic x =>
-          if ctx.cfg.recover then
-            EM.bind (EM.modify (runCallback node.cb node.fn.id start (some (.panicErr node.fn.id x)))) fun _ =>
-              EM.fail (.err (.panicErr node.fn.id x))
-          else
-            EM.bind (EM.modify (runCallback node.cb node.fn.id start none)) fun _ =>
-              EM.fail (.panic node.fn.id x)
-        | .err x _ =>
-          let e := DErr.user node.fn.id x
-          EM.bind (EM.modify (runCallback node.cb node.fn.id start (some e))) fun _ => EM.fail (.err e)
-        | .ok x len =>
-          EM.modify fun st =>
-            let ret : Ret := { dry := false, f := node.fn.id, x := x, len := len }
-            let st := st.modScope node.s fun sc => extractSlots ctx.env true ret sc node.results
-            let st := st.modDeco d fun y => { y with state := .called }
-            runCallback node.cb node.fn.id start none st
-        | .dry =>
-          EM.modify fun st =>
-            let ret : Ret := { dry := true, f := 0, x := 0, len := 0 }
-            let st := st.modScope node.s fun sc => extractSlots ctx.env true ret sc node.results
-            let st := st.modDeco d fun y => { y with state := .called }
-            runCallback node.cb node.fn.id start none st)
+      EM.finally_
+        (EM.bind (shallowCheck s node.params) fun _ =>
+         EM.bind (EM.wrapErr (buildList ctx fuel node.params node.s) .argsFailed) fun args =>
+         decoTail ctx d node args)
         -- a decorator that did not run to completion is tried again (repair of F4)
-        (fun st => st.modDeco d fun x => if x.state == .called then x else { x with state := .ready }) st
+        (fun st => st.modDeco d fun x => if x.state == .called then x else { x with state := .ready })
+        (st.modDeco d fun x => { x with state := .onStack })
 
 /-- `paramSingle.Build(c)` -/
 def buildSingle (ctx : Ctx) : Nat → Key → Bool → Nat → EM Val
@@ -353,11 +366,10 @@ def buildSingle (ctx : Ctx) : Nat → Key → Bool → Nat → EM Val
     let anc := st.ancestors c
     match findDeco st k anc with
     | some (d, ds) =>
-      (do EM.wrapErr (callDeco ctx fuel d ds) (.paramSingle k 1)
-          let st' ← EM.get
-          match aget (st'.scope ds).decoratedValues k with
-          | some v => EM.pure v
-          | none => EM.fail .bug) st
+      EM.bind (EM.wrapErr (callDeco ctx fuel d ds) (.paramSingle k 1)) (fun _ => fun st' =>
+        match aget (st'.scope ds).decoratedValues k with
+        | some v => (.ok v, st')
+        | none => (.error .bug, st')) st
     | none =>
       match findDecoratedValue st k anc with
       | some v => (.ok v, st)
@@ -368,45 +380,39 @@ def buildSingle (ctx : Ctx) : Nat → Key → Bool → Nat → EM Val
           if opt then (.ok (zeroVal ctx.env k.ty), st)
           else (.error (.err (.missingTypes [k])), st)
         | .providers pc ns =>
-          (do let early ← firstM ns fun n => fun st1 =>
-                match callCtor ctx fuel n (st1.ctor n).origS st1 with
-                | (.ok (), st2) => (.ok none, st2)
-                | (.error (.err e), st2) =>
-                  if e.hasMissingDeps && opt then (.ok (some (zeroVal ctx.env k.ty)), st2)
-                  else (.error (.err (.paramSingle k n e)), st2)
-                | (.error f, st2) => (.error f, st2)
-              match early with
-              | some z => EM.pure z
-              | none =>
-                let st' ← EM.get
-                match aget (st'.scope pc).values k with
-                | some v => EM.pure v
-                | none => EM.fail .bug) st
+          EM.bind (firstM ns fun n => fun st1 =>
+              providerStep ctx.env k opt n (callCtor ctx fuel n (st1.ctor n).origS st1)) (fun early => fun st' =>
+            match early with
+            | some z => (.ok z, st')
+            | none =>
+              match aget (st'.scope pc).values k with
+              | some v => (.ok v, st')
+              | none => (.error .bug, st')) st
 
 /-- `paramGroupedSlice.Build(c)` -/
 def buildGroup (ctx : Ctx) : Nat → Key → Bool → Nat → EM Val
   | 0, _, _, _ => EM.fail .fuel
   | fuel + 1, k, soft, c => fun st =>
     let anc := st.ancestors c
-    (do -- callGroupDecorators: from the root down to c
-        forEachM anc.reverse fun s => fun st1 =>
-          match aget (st1.scope s).decorators k with
-          | some d =>
-            if (st1.deco d).state == DecoState.onStack then (.ok (), st1)
-            else EM.wrapErr (callDeco ctx fuel d s) (.paramGroup k d) st1
-          | none => (.ok (), st1)
-        let st2 ← EM.get
+    EM.bind
+      -- callGroupDecorators: from the root down to c
+      (forEachM anc.reverse fun s => fun st1 =>
+        match aget (st1.scope s).decorators k with
+        | some d =>
+          if (st1.deco d).state == DecoState.onStack then (.ok (), st1)
+          else EM.wrapErr (callDeco ctx fuel d s) (.paramGroup k d) st1
+        | none => (.ok (), st1))
+      (fun _ => fun st2 =>
         match findDecoratedGroup st2 k anc with
-        | some v => EM.pure v
+        | some v => (.ok v, st2)
         | none =>
-          -- callGroupProviders
-          (if soft then EM.pure () else
-            forEachM anc fun s => fun st3 =>
-              forEachM (agetL (st3.scope s).providers k)
-                (fun n => fun st4 => EM.wrapErr (callCtor ctx fuel n (st4.ctor n).origS) (.paramGroup k n) st4) st3)
-          |> fun m => EM.bind m fun _ => do
-            let st5 ← EM.get
-            EM.pure (Val.sl (anc.flatMap fun s => agetL (st5.scope s).groups k))) st
+          EM.bind
+            -- callGroupProviders
+            (if soft then EM.pure () else
+              forEachM anc fun s => fun st3 =>
+                forEachM (agetL (st3.scope s).providers k)
+                  (fun n => fun st4 => EM.wrapErr (callCtor ctx fuel n (st4.ctor n).origS) (.paramGroup k n) st4) st3)
+            (fun _ => fun st5 => (.ok (Val.sl (anc.flatMap fun s => agetL (st5.scope s).groups k)), st5)) st2) st
 
 /-- `param.Build(c)` -/
 def buildParam (ctx : Ctx) : Nat → Param → Nat → EM Val
@@ -415,10 +421,10 @@ def buildParam (ctx : Ctx) : Nat → Param → Nat → EM Val
     match p with
     | .single k opt => buildSingle ctx fuel k opt c
     | .grouped _ k soft _ => buildGroup ctx fuel k soft c
-    | .object _ fs => do
+    | .object _ fs =>
       -- paramObject.Build: soft groups are built after all other fields
-      let hard ← mapM' (fs.filter (fun f => !isSoft f)) fun f => buildParam ctx fuel f c
-      let soft ← mapM' (fs.filter isSoft) fun f => buildParam ctx fuel f c
+      EM.bind (mapM' (fs.filter (fun f => !isSoft f)) fun f => buildParam ctx fuel f c) fun hard =>
+      EM.bind (mapM' (fs.filter isSoft) fun f => buildParam ctx fuel f c) fun soft =>
       EM.pure (.obj (interleave fs hard soft))
 
 /-- `paramList.BuildList(c)` -/
